@@ -49,8 +49,10 @@ type Form struct {
 }
 
 // Op is one use. Tag: T text, R render script, I RenderScriptItems, C RenderCSSItems, E element, O once,
-// D derive a further Go context from the one the use goes through (Text: nonce | children | clear | value | cancel;
-// Nonce for kind nonce). Every derived context belongs to the same rendering context.
+// D derive a further Go context from the one the use goes through (Text: nonce | children | clear | value | cancel | mw;
+// Nonce for kind nonce; Classes for kind mw: a request carrying the context goes through a further
+// templ.NewCSSMiddleware(next, Classes...) and the derived context is the one its Next handler sees).
+// Every derived context belongs to the same rendering context.
 type Op struct {
 	Tag     string
 	Text    string   `json:",omitempty"`
@@ -59,6 +61,7 @@ type Op struct {
 	Forms   []Form   `json:",omitempty"`
 	H       int      `json:",omitempty"`
 	Nonce   string   `json:",omitempty"`
+	Classes []Class  `json:",omitempty"`
 	// Via (top-level uses only): which Go context of the rendering context the use goes through: 0 the original
 	// one, i > 0 the one the i-th D use of this rendering context produced (0 when there is no such one).
 	Via int `json:",omitempty"`
@@ -68,9 +71,11 @@ type Op struct {
 	Attrs []PAttr `json:",omitempty"`
 }
 
-// PAttr is one attribute item of a probe element: Kind "class" (Forms), "on" (S), or "if" (Cond, Then, Else).
+// PAttr is one attribute item of a probe element: Kind "class" (Forms), "on" (S), "if" (Cond, Then, Else), or
+// "const" (a constant attribute, N picks its name and value).
 type PAttr struct {
 	Kind  string
+	N     int     `json:",omitempty"`
 	Forms []Form  `json:",omitempty"`
 	S     *Script `json:",omitempty"`
 	Cond  bool    `json:",omitempty"`
@@ -214,10 +219,17 @@ func (h Hist) toks() []string {
 	}
 	for _, co := range h.Ops {
 		if co.Op.Tag == "D" {
-			// to the model only WithNonce is an event (it changes the nonce of the one registry); the other
-			// derivations change nothing
-			if co.Op.Text == "nonce" {
+			// to the model only WithNonce (it changes the nonce of the one registry) and a further middleware (it
+			// adds its classes to the one registry) are events; the other derivations change nothing
+			switch co.Op.Text {
+			case "nonce":
 				t = append(t, strconv.Itoa(co.Ctx), "W", co.Op.Nonce)
+			case "mw":
+				t = append(t, strconv.Itoa(co.Ctx), "M")
+				for _, k := range co.Op.Classes {
+					k.toks(&t)
+				}
+				t = append(t, ".")
 			}
 			continue
 		}
